@@ -161,6 +161,12 @@ def run_shard(spec):
             rebound_function_case(rng, counters, violations)
     for n in range(spec["managers"] if not spec.get("replay") else 30):
         hg = gen.HistoryGen(rng, layered=True, depth=rng.choice([2, 3, 4]), profile=PROFILE, weights=W)
+        # one manager in three knows its containers by labels that are also names of the math module or short words a generated
+        # source could bind itself (e, pi, tau, exp, log, pow, gamma, ...): labels are the user's choice
+        if rng.random() < 0.34:
+            names = rng.sample(["e", "pi", "tau", "exp", "log", "pow", "gamma", "dist", "prod", "sin", "cos", "fun", "self", "value", "args", "_", "x", "v"], 3)
+            hg.world["label_names"] = dict(zip(("r", "a", "f"), names))
+            counters["worlds_with_unusual_container_labels"] = counters.get("worlds_with_unusual_container_labels", 0) + 1
         ls = lockstep.LockStep(hg.world)
         ops = []
         bad = False
